@@ -98,6 +98,18 @@ def power_lattice(rng, tier):
     c['total_power'] = 1.1e6
     c['power_scaling_factor'] = 0.8
     out.append(('p-core7-norm-scaled', c))
+    # every assembly with its own power mesh and curved shapes: each
+    # assembly's cell boundaries must be planes of the common axial mesh
+    from harness.scenarios import fitted_type, layout_positions
+    A, B = fitted_type(2, 0.060), fitted_type(3, 0.060)
+    p7 = layout_positions(7)
+    lay = [(r_, p_, 'B' if i in (0, 3) else 'A')
+           for i, (r_, p_) in enumerate(p7)]
+    out.append(('p-core7-own-meshes', make_core(
+        rng, {'A': A, 'B': B}, lay,
+        [flow_for({'A': A, 'B': B}[n], 0.12) for (_, _, n) in lay],
+        gap_model='flow', bypass_fraction=0.03, ncell=3, power_order=2,
+        own_cells=True)))
     if tier == 'thorough':
         out += [('p-' + l, cc) for l, cc in cl[1:]]
         for i in range(6):
